@@ -110,6 +110,8 @@ def oracle_c01(ulines, lines, meta):
         impl.run(l)
     for k, l in enumerate(lines):
         r = impl.run(l)
+        if 'ZeroDivisionError' in r:
+            return None          # zero divisor: outside the quantifier (well-formed universes)
         if r.startswith('exn Internal'):
             return dict(fails='internal error %s at %r' % (r, l), upto=k)
         if l.split()[0] in ('get', 'read', 'keys', 'effects', 'item', 'fitdump', 'regs', 'counters', 'new',
@@ -149,6 +151,8 @@ def oracle_c10(ulines, lines, meta):
         impl.run(l)
     for k, l in enumerate(lines):
         r = impl.run(l)
+        if 'ZeroDivisionError' in r:
+            return None          # zero divisor: outside the quantifier (well-formed universes)
         if r.startswith('exn Internal'):
             return dict(fails='%r raised %s' % (l, r[4:]), upto=k)
     return None
@@ -187,4 +191,85 @@ def oracle_c11(ulines, lines, meta):
         nz = [kv for kv in r.split()[2:] if not kv.endswith('=0')]
         if nz:
             return dict(fails='registers not empty after tear-down: ' + ' '.join(nz))
+    return None
+
+
+def oracle_c07(ulines, lines, meta):
+    """container invariants on the implementation after every call: an item is
+    in at most one place, its own view of owner and fit agrees with membership,
+    racks have no trailing hole, skill lookup by type id agrees with contents"""
+    impl = eng_impl.Impl()
+    for l in ulines:
+        impl.run(l)
+    for k, l in enumerate(lines):
+        impl.run(l)
+        if l.split()[0] in ('get', 'read', 'keys', 'effects', 'item', 'fitdump', 'regs', 'counters'):
+            continue
+        seen = {}
+        for f, fit in impl.fits.items():
+            places = []
+            for s in SLOTS + ('character',):
+                it = getattr(fit, eng_impl.SLOT_ATTR[s])
+                if it is not None:
+                    places.append((it, 'slot:%d:%s' % (f, s)))
+            for s in SETS:
+                c = getattr(fit, s)
+                if len(c) != len(list(c)):
+                    return dict(fails='len/iter disagree on %s of fit %d after %r' % (s, f, l), upto=k)
+                for it in c:
+                    places.append((it, 'set:%d:%s' % (f, s)))
+                    if it not in c:
+                        return dict(fails='iteration/membership disagree on %s after %r' % (s, l), upto=k)
+            for it in fit.skills:
+                if fit.skills[it._type_id] is not it:
+                    return dict(fails='skill lookup by type id disagrees with contents after %r' % l, upto=k)
+            for s in RACKS:
+                r = getattr(fit.modules, s)
+                lst = list(r)
+                if lst and lst[-1] is None:
+                    return dict(fails='trailing hole in rack %s of fit %d after %r' % (s, f, l), upto=k)
+                if len(r) != len(lst) or len(r.items()) != sum(1 for x in lst if x is not None):
+                    return dict(fails='len / items view disagree on rack %s after %r' % (s, l), upto=k)
+                for n, it in enumerate(lst):
+                    if it is not None:
+                        places.append((it, 'rack:%d:%s' % (f, s)))
+                        if r.index(it) != n and lst.index(it) == n:
+                            return dict(fails='index() disagrees on rack %s after %r' % (s, l), upto=k)
+            for it, where in places:
+                if id(it) in seen:
+                    return dict(fails='item %s is in two places (%s and %s) after %r' %
+                                (impl.iid(it), seen[id(it)], where, l), upto=k)
+                seen[id(it)] = where
+                if it._fit is not fit:
+                    return dict(fails='item %s in %s does not resolve to fit %d after %r' %
+                                (impl.iid(it), where, f, l), upto=k)
+                if impl.place(it) != where:
+                    return dict(fails='item %s: membership %s but own view %s after %r' %
+                                (impl.iid(it), where, impl.place(it), l), upto=k)
+        for i, it in impl.items.items():
+            if it._container is not None and id(it) not in seen and impl.place(it).startswith(('slot', 'set', 'rack')):
+                return dict(fails='item %d believes it is in %s but the container does not hold it after %r' %
+                            (i, impl.place(it), l), upto=k)
+    return None
+
+
+def oracle_c09(ulines, lines, meta):
+    """the same mutations with all reads dropped, and with every value read
+    after every mutation, end in the same observable values"""
+    muts = [l for l in lines if l.split()[0] not in ('get', 'read', 'keys', 'effects', 'item', 'fitdump', 'regs',
+                                                      'counters')]
+    a, ra = run_ops(ulines, muts)
+    b = eng_impl.Impl()
+    for l in ulines:
+        b.run(l)
+    for k, l in enumerate(muts):
+        b.run(l)
+        if l.split()[0] in ('new', 'fit', 'solsys'):
+            continue
+        for o in observation(meta):
+            if o.startswith('get '):
+                b.run(o)
+    for (c, x), (_, y) in zip(values(a, meta), values(b, meta)):
+        if not same(c, x, y):
+            return dict(fails='reads changed a later value: %r gives %s without reads and %s with reads' % (c, x, y))
     return None
